@@ -209,3 +209,16 @@ Print Assumptions C05T_response_unpack_fuel.
 Theorem C05T_request_unpack_fuel : forall pkg, request_unpack env0 rq pkg <> DFuel.
 Proof. exact request_unpack_fuel. Qed.
 Print Assumptions C05T_request_unpack_fuel.
+
+(* ---- the CURRENT source of UniAttribute.Encode writes the model's bytes ----
+   Gen/Translated.v is regenerated from tars/protocol/tup/tup.go on every run (the map head with the count, the five
+   writes per entry; their callees are the translated codec.Buffer methods). Run over the entries in the order Go's map
+   iteration yields them, the translated statements append exactly tup_encode m and return a nil error. *)
+From TarsV Require Import Xlate.GoSem Gen.Translated Xlate.TupEquiv.
+Theorem C05T_source_encode_entry : forall err0 k v out,
+  tr_tup_Encode_entry err0 k v out = Next (out ++ enc_entry (k, v), false).
+Proof. exact TupEquiv.tr_tup_Encode_entry_equiv. Qed.
+Print Assumptions C05T_source_encode_entry.
+Theorem C05T_source_encode : forall m out, go_tup_encode m out = Next (out ++ tup_encode m, false).
+Proof. exact TupEquiv.go_tup_encode_equiv. Qed.
+Print Assumptions C05T_source_encode.
